@@ -33,12 +33,13 @@ SEED_MULT = 1_000_003
 
 
 class Violation:
-    __slots__ = ('rule', 'signature', 'detail')
+    __slots__ = ('rule', 'signature', 'detail', 'case')
 
-    def __init__(self, rule, signature, detail=''):
+    def __init__(self, rule, signature, detail='', case=None):
         self.rule = rule
         self.signature = signature
         self.detail = detail
+        self.case = case  # the specific sub-case that fails, when one generated case fans out into many runs
 
     def key(self):
         return (self.rule, self.signature)
@@ -57,9 +58,11 @@ class Result:
         self.counters = collections.Counter()  # fault kinds fired, probes hit, contexts...
         self.sim_time = 0.0
         self.ticks = 0
+        self.runs = 1  # simulated executions this result stands for
+        self.digests = None  # optional: set of digests of the individual non-trivial executions
 
-    def violate(self, rule, signature, detail=''):
-        self.violations.append(Violation(rule, signature, str(detail)[:600]))
+    def violate(self, rule, signature, detail='', case=None):
+        self.violations.append(Violation(rule, signature, str(detail)[:600], case))
 
     def digest(self):
         blob = json.dumps(self.events, sort_keys=True, default=repr).encode()
@@ -131,20 +134,24 @@ def _work(args):
             if len(out['errors']) > 5:
                 break
             continue
-        out['n'] += 1
+        out['n'] += result.runs
+        out['cases'] = out.get('cases', 0) + 1
         out['counters'].update(result.counters)
         out['sim_time'] += result.sim_time
         out['ticks'] += result.ticks
-        if result.nontrivial:
+        if result.digests is not None:
+            out['digests'] |= result.digests
+        elif result.nontrivial:
             out['digests'].add(result.digest())
         if keep_samples and len(out['samples']) < keep_samples:
             out['samples'].append(case)
         for violation in result.violations:
             key = violation.key()
-            size = len(json.dumps(case, default=repr))
+            failing = violation.case if violation.case is not None else case
+            size = len(json.dumps(failing, default=repr))
             held = out['violations'].get(key)
             if held is None or size < held['size']:
-                out['violations'][key] = {'size': size, 'case': case, 'violation': violation.as_dict(),
+                out['violations'][key] = {'size': size, 'case': failing, 'violation': violation.as_dict(),
                                           'count': (held['count'] if held else 0) + 1}
             else:
                 held['count'] += 1
